@@ -51,3 +51,15 @@ def candidate_days(rng: random.Random, hist: Dict[str, Any], n: int) -> List[dat
     ordered = sorted(pool)
     rng.shuffle(ordered)
     return ordered[:n]
+
+
+def offset_sensitive_days(hist: Dict[str, Any]) -> List[date]:
+    """Own dates (and UTC dates) of the rows whose own calendar date differs from their UTC date: a window bound on such a
+    day separates code that compares own dates from code that compares UTC instants."""
+    days = set()
+    for r in hist["rows"]:
+        ts = parse_ts(r["ts"])
+        utc_day = ts.astimezone(timezone.utc).date()
+        if ts.date() != utc_day:
+            days.update((ts.date(), utc_day))
+    return sorted(days)
